@@ -35,6 +35,36 @@ def get() -> uint256:
     return self.val
 '''
 
+# a callee whose *view* functions call back into the caller's public getters (re-entry through STATICCALL), and whose
+# state-changing function calls back a setter
+PEEK_HELPER = '''
+interface Target:
+    def x() -> uint256: view
+    def t() -> uint256: view
+    def arr(i: uint256) -> uint256: view
+    def bump(v: uint256): nonpayable
+
+@external
+@view
+def peek(target: address) -> uint256:
+    return staticcall Target(target).x()
+
+@external
+@view
+def peek_t(target: address) -> uint256:
+    return staticcall Target(target).t()
+
+@external
+@view
+def peek_arr(target: address, i: uint256) -> uint256:
+    return staticcall Target(target).arr(i) + staticcall Target(target).x() * 1000
+
+@external
+def poke(target: address, v: uint256) -> uint256:
+    extcall Target(target).bump(v)
+    return staticcall Target(target).x()
+'''
+
 # ---------------------------------------------------------------- regression (known finding iii)
 _add("regress_loop_store_forwarding", '''
 s1: uint256
@@ -46,6 +76,127 @@ def f1(a1: uint256) -> uint256:
         self.s1 += a1
     return self.s1
 ''', key="C14:venom:loop-store-forwarding", prio=0)
+
+_add("regress_loop_load_forwarding", '''
+s1: uint64
+
+@external
+def f0() -> uint64:
+    v2: uint64 = self.s1
+    for v1: uint256 in range(3):
+        self.s1 ^= 1
+    self.s1 *= v2
+    return self.s1
+
+@external
+def f1(a: uint64) -> uint64:
+    self.s1 = a
+    v2: uint64 = self.s1
+    for v1: uint256 in range(3):
+        self.s1 ^= 1
+    self.s1 *= v2 % 1000
+    return self.s1
+''', key="C14:venom:loop-load-forwarding", prio=0)
+
+_add("static_callback", '''
+interface Peek:
+    def peek(target: address) -> uint256: view
+    def peek_t(target: address) -> uint256: view
+    def peek_arr(target: address, i: uint256) -> uint256: view
+    def poke(target: address, v: uint256) -> uint256: nonpayable
+
+o: public(address)
+x: public(uint256)
+t: public(transient(uint256))
+arr: public(uint256[3])
+
+@deploy
+def __init__(helper: address):
+    self.o = helper
+
+@external
+def bump(v: uint256):
+    self.x += v
+
+@external
+def go(v: uint256) -> (uint256, uint256):
+    self.x = 1
+    r: uint256 = staticcall Peek(self.o).peek(self)
+    self.x = 2 + v % 7
+    return r, self.x
+
+@external
+def go_t(v: uint256) -> (uint256, uint256):
+    self.t = 11
+    r: uint256 = staticcall Peek(self.o).peek_t(self)
+    self.t = 12 + v % 5
+    q: uint256 = staticcall Peek(self.o).peek_t(self)
+    self.t = 0
+    return r, q
+
+@external
+def go_arr(i: uint256, v: uint256) -> (uint256, uint256):
+    self.arr[i % 3] = v % 100 + 1
+    self.x = 5
+    r: uint256 = staticcall Peek(self.o).peek_arr(self, i % 3)
+    self.arr[i % 3] = 0
+    self.x = 6
+    return r, staticcall Peek(self.o).peek_arr(self, (i + 1) % 3)
+
+@external
+def go_poke(v: uint256) -> (uint256, uint256):
+    self.x = 3
+    r: uint256 = extcall Peek(self.o).poke(self, v % 9)
+    a: uint256 = self.x
+    self.x = 4
+    return r, a
+
+@external
+def go_raw(v: uint256) -> (uint256, uint256):
+    self.x = 21
+    res: Bytes[32] = raw_call(self.o, abi_encode(self, method_id=method_id("peek(address)")), max_outsize=32, is_static_call=True)
+    self.x = 22 + v % 3
+    return convert(res, uint256), self.x
+''', helper="peek", prio=0)
+
+_add("const_fold", '''
+@external
+@pure
+def fold_se() -> (int8, int8, int16):
+    a: int8 = -100
+    b: int8 = -100
+    c: int8 = 100
+    d: int16 = -20000
+    return unsafe_add(a, b), unsafe_add(c, c), unsafe_add(d, d)
+
+@external
+@pure
+def fold_shl(k: uint256) -> (uint256, uint256, uint256):
+    one: uint256 = 1
+    n: uint256 = 2**200
+    m: uint256 = 256
+    s: uint256 = 255
+    return (one << n) + k, one << m, (one << s) >> s
+
+@external
+@pure
+def fold_misc(k: uint256) -> (uint256, int256, uint256, int256):
+    a: uint256 = 7
+    b: uint256 = 0
+    c: int256 = -7
+    d: int256 = 2
+    e: int256 = min_value(int256)
+    return unsafe_div(a, b) + a % 3 + k, unsafe_div(c, d), uint256_addmod(a, a, 4) + uint256_mulmod(a, a, 5) + b, (e >> 255) + (c >> 1)
+
+@external
+@pure
+def fold_cmp() -> (bool, bool, bool, bool):
+    a: int256 = -1
+    b: int256 = 0
+    c: uint256 = max_value(uint256)
+    d: uint256 = 0
+    return a < b, c > d, a > b, a == -1
+''', prio=0)
 
 # ---------------------------------------------------------------- loops with loop-carried storage / transient
 _add("loop_storage", '''
@@ -1026,6 +1177,16 @@ def add_chain(a: uint256, b: uint256) -> uint256:
 
 @external
 @pure
+def sub_mod(a: uint256, b: uint256) -> uint256:
+    return (a % 100) - (b % 50)
+
+@external
+@pure
+def add_mod(a: uint8, b: uint8) -> uint8:
+    return (a % 128) + (b % 128)
+
+@external
+@pure
 def sub_guard(a: uint256, b: uint256) -> uint256:
     if a >= b:
         return a - b
@@ -1208,7 +1369,7 @@ for _c in C2.CORPUS:
                    "helper": "std" if "def __init__(helper: address)" in _c["src"] else None,
                    "key": None, "prio": 2})
 
-HELPERS = {"std": (C2.HELPER, False), "bp": (BLUEPRINT_HELPER, True)}
+HELPERS = {"std": (C2.HELPER, False), "bp": (BLUEPRINT_HELPER, True), "peek": (PEEK_HELPER, False)}
 
 
 def select(tier, rnd):
